@@ -1,5 +1,6 @@
 // instantiation-only driver for include/nano/wlearner/util.h (no logic): names one instantiation of each loop_*
 // template with an opaque operator type, so that clang prints the instantiated bodies
+#include <nano/dataset/hash.h>
 #include <nano/wlearner/util.h>
 namespace nvdrv
 {
@@ -20,6 +21,7 @@ struct op_mclass_t
 void inst_scalar(const dataset_t& d, const indices_t& s, tensor_size_t f, const op_scalar_t& op) { wlearner::loop_scalar(d, s, f, op); }
 void inst_sclass(const dataset_t& d, const indices_t& s, tensor_size_t f, const op_sclass_t& op) { wlearner::loop_sclass(d, s, f, op); }
 void inst_mclass(const dataset_t& d, const indices_t& s, tensor_size_t f, const op_mclass_t& op) { wlearner::loop_mclass(d, s, f, op); }
+tensor_size_t inst_find_sclass(const hashes_t& h, const int32_t& v) { return find(h, v); }
 } // namespace nvdrv
 // enumerator values used as `case` labels in the C rendering of table.cpp's process() (specs/C10/table.h)
 static_assert(static_cast<int>(nano::feature_type::sclass) == 10, "NVE_feature_type_sclass");
